@@ -101,6 +101,9 @@ def _n(t, env, wide):
         e = t[2]
         if e[0] == "i" or (e[0] == "ci" and not e[2]):
             b_n, i_n, v_n = _n(t[1], env, wide), (_n(e[1], env, wide) if e[0] == "i" else ("int", e[1])), _n(t[3], env, wide)
+            # S[a] = S[b]; S[b] = (the old) S[a]: the two elements exchanged
+            if b_n[0] == "upd" and v_n == ("idx", b_n[1], b_n[2]) and b_n[3] == ("idx", b_n[1], i_n):
+                return ("swap", b_n[1], b_n[2], i_n)
             if b_n[0] == "arr" and i_n[0] == "int" and 0 <= i_n[1] < len(b_n[1]):
                 # a store at an index that only normalisation shows to be a constant
                 return ("arr", b_n[1][:i_n[1]] + (v_n,) + b_n[1][i_n[1] + 1:])
@@ -201,11 +204,21 @@ def _bv(t, env):
                 return None
             w = BYTES[tgt]
             return (inner + (ZERO,) * w)[:w] if w >= len(inner) else None
+        if name.startswith("core::num::<impl u") and name.split("::")[-1] == "swap_bytes" and len(t[2]) == 1:
+            inner = _bv(t[2][0], env)
+            ity = name[len("core::num::<impl "):].split(">")[0]
+            if inner is None or ity not in BYTES or len(inner) != BYTES[ity]:
+                return None
+            return tuple(reversed(inner))
         if name.startswith("core::num::<impl ") and name.split("::")[-1] in ("from_be_bytes", "from_le_bytes"):
             ity = name[len("core::num::<impl "):].split(">")[0]
             arr = _n(t[2][0], env, ())
             if ity in BYTES and arr[0] == "arr" and len(arr[1]) == BYTES[ity] and all(_is_byte_nf(x) for x in arr[1]):
                 return tuple(reversed(arr[1])) if name.endswith("from_be_bytes") else tuple(arr[1])
+            if ity in BYTES and arr[0] == "sym":
+                # a whole (symbolic) byte array of exactly that width read as one word
+                elems = tuple(("idx", arr, ("int", k_)) for k_ in range(BYTES[ity]))
+                return tuple(reversed(elems)) if name.endswith("from_be_bytes") else elems
             return None
     if k == "binop":
         op = t[1]
@@ -258,6 +271,23 @@ def _bv(t, env):
     if _is_byte_nf(n) and n[0] != "sym":
         return (n,)
     return None
+
+
+def swap_reads(n):
+    """reads of a just-swapped table at the swapped positions, in terms of the table before:
+    swap(S, a, b)[a] = S[b], swap(S, a, b)[b] = S[a]"""
+    if isinstance(n, frozenset):
+        return frozenset(swap_reads(x) for x in n)
+    if not isinstance(n, tuple):
+        return n
+    m = tuple(swap_reads(x) if isinstance(x, (tuple, frozenset)) else x for x in n)
+    if m and m[0] == "idx" and isinstance(m[1], tuple) and m[1] and m[1][0] == "swap":
+        S_, a_, b_ = m[1][1], m[1][2], m[1][3]
+        if m[2] == a_:
+            return ("idx", S_, b_)
+        if m[2] == b_:
+            return ("idx", S_, a_)
+    return m
 
 
 def bv_trim(v):
